@@ -214,7 +214,25 @@ def run(ctx):
                     defs = rda[n.id].get(R, set())
                     fresh_only = bool(defs) and all(isinstance(getattr(agg.nodes[d].ast, "value", None), ast.Call)
                                                     and unparse(agg.nodes[d].ast.value.func) == "_FIXRepeatingGroupContainer" for d in defs)
-                if not (checked or fresh_only):
+                per_def = False
+                if not (checked or fresh_only) and isinstance(c.func.value, ast.Name):
+                    # per definition that reaches the call: built by the constructor, or followed - before the call - by the isinstance
+                    # test whose failing edge cannot reach the call
+                    tests_ = [t_ for t_ in agg.nodes if t_.kind == "test" and f"isinstance({R}, _FIXRepeatingGroupContainer)" in unparse(t_.ast)]
+
+                    def failing_cannot_reach(t_):
+                        for d_, lab_ in agg.succs(t_.id, exc=False):
+                            fs_ = facts(t_.ast, lab_ == "true")
+                            if (f"isinstance({R}, _FIXRepeatingGroupContainer)", False) in fs_ and (d_ == n.id or agg.reaches(d_, n.id, avoid={t_.id}, exc=False)):
+                                return False
+                        return True
+                    good_tests = {t_.id for t_ in tests_ if failing_cannot_reach(t_)}
+                    per_def = bool(defs) and all(
+                        (isinstance(getattr(agg.nodes[d].ast, "value", None), ast.Call) and unparse(agg.nodes[d].ast.value.func) == "_FIXRepeatingGroupContainer")
+                        or (good_tests and agg.witness_path(d, [n.id], avoid=good_tests, exc=False) is None) for d in defs)
+                    if per_def and good_tests:
+                        raises_ok = raises_ok or any(r.kind == "stmt" and isinstance(r.ast, ast.Raise) and "FIXMessageError" in unparse(r.ast) for r in agg.nodes)
+                if not (checked or fresh_only or per_def):
                     exists_branch_ok = False
                 if checked:
                     for r in agg.nodes:
@@ -242,6 +260,26 @@ def run(ctx):
                 seen.add(d)
                 todo.append(d)
     val_ok = bool(conv) and store not in seen and unparse(g.nodes[store].ast.value) == "value"
+    if not val_ok:
+        # by value: what is stored is str(<value parameter>) - or the parameter itself where it is known to be a class - on every path,
+        # directly or through a local
+        vparam = setf.args.args[2].arg if len(setf.args.args) > 2 else "value"
+        rds = reaching_defs(g, exc=False)
+        sv = g.nodes[store].ast.value
+
+        def as_stored(e, at, depth=0):
+            if unparse(e) == f"str({vparam})":
+                return True
+            if unparse(e) == vparam:
+                fs_ = set()
+                for t_, lab_ in g.guards(at, exc=False):
+                    fs_ |= facts(t_, lab_ == "true")
+                return any(tv and re.fullmatch(r"(_isclass|inspect\.isclass|\w+\._isclass)\(" + re.escape(vparam) + r"\)", a) for a, tv in fs_)
+            if isinstance(e, ast.Name) and depth < 3:
+                ds = rds[at].get(e.id, set())
+                return bool(ds) and all(getattr(g.nodes[d].ast, "value", None) is not None and as_stored(g.nodes[d].ast.value, d, depth + 1) for d in ds)
+            return False
+        val_ok = as_stored(sv, store)
     ctx.instance("C18.stored-as-string", "set[value := str(value)]", val_ok,
                  "a non-class value can reach the store without str(value): what is read back is not the string form of what was written (e.g. str-subclass enums)", loc(setf))
     dels = [n for n in walk_no_nested(setf) if isinstance(n, ast.Delete) or (isinstance(n, ast.Call) and isinstance(n.func, ast.Attribute)
@@ -327,21 +365,32 @@ def run(ctx):
         f = methods[mname]
         g = _CFG(f)
         rd = _rd(g, exc=False)
-        sinks = [n for n in g.nodes if n.kind == "stmt" and any(isinstance(c, ast.Call) and isinstance(c.func, ast.Attribute) and c.func.attr == "add_group"
-                                                                and c.args and unparse(c.args[0]) == var for c in walk_no_nested(n.ast))]
+        # whatever local carries it: what the group container receives is the given item itself, or FIXContainer(item) where the item is a dict
+        sinks = []
+        for n in g.nodes:
+            if n.kind == "stmt" and n.ast is not None:
+                for c in walk_no_nested(n.ast):
+                    if isinstance(c, ast.Call) and isinstance(c.func, ast.Attribute) and c.func.attr == "add_group" and unparse(c.func.value) != "self" \
+                            and c.args and isinstance(c.args[0], ast.Name):
+                        sinks.append((n, c.args[0].id))
         ok = bool(sinks)
         why = ""
-        for sk in sinks:
-            for d in rd[sk.id].get(var, set()):
+        for sk, argn in sinks:
+            ds = rd[sk.id].get(argn, set())
+            if not ds and argn != var:
+                ok = False
+                why = f"`{argn}`"
+            for d in ds:
                 dn = g.nodes[d]
-                if dn.kind == "for":
+                if dn.kind == "for" and argn == var:
                     continue  # the loop variable over the caller's list
                 val = getattr(dn.ast, "value", None)
                 fs = set()
                 for t, lab in g.guards(d, exc=False):
                     fs |= _facts(t, lab == "true")
-                conv = isinstance(val, ast.Call) and unparse(val.func) == "FIXContainer" and (f"isinstance({var}, dict)", True) in fs
-                if not conv:
+                conv = isinstance(val, ast.Call) and unparse(val.func) == "FIXContainer" and [unparse(a_) for a_ in val.args] == [var] and (f"isinstance({var}, dict)", True) in fs
+                same = isinstance(val, ast.Name) and val.id == var and argn != var
+                if not (conv or same):
                     ok = False
                     why = f"`{short(dn.ast)}`"
         ctx.instance("C18.stored-as-string", f"{mname}[item stored as given]", ok,
